@@ -633,6 +633,7 @@ func c17r2(c *Ctx) {
 	specs := []spec{
 		{pkgModel, "", "sortConfigByCreationTime", [][3]string{{"pkg/config", "Meta", "Name"}, {"pkg/config", "Meta", "Namespace"}, {"pkg/config", "Meta", "CreationTimestamp"}}},
 		{pkgModel, "", "SortServicesByCreationTime", [][3]string{{pkgModel, "ServiceAttributes", "Name"}, {pkgModel, "ServiceAttributes", "Namespace"}, {pkgModel, "Service", "CreationTime"}}},
+		{pkgModel, "", "compareServicesByCreationTime", [][3]string{{pkgModel, "ServiceAttributes", "Name"}, {pkgModel, "ServiceAttributes", "Namespace"}, {pkgModel, "Service", "CreationTime"}}},
 		{pkgModel, "", "sortConfigBySelectorAndCreationTime", [][3]string{{"pkg/config", "Meta", "Name"}, {"pkg/config", "Meta", "Namespace"}, {"pkg/config", "Meta", "CreationTimestamp"}}},
 		{pkgModel, "EndpointShards", "Keys", [][3]string{{pkgModel, "ShardKey", "Provider"}, {pkgModel, "ShardKey", "Cluster"}}},
 	}
@@ -677,7 +678,7 @@ func c17r2(c *Ctx) {
 				"the comparator of "+s.fn+" does not compare "+f[1]+"."+f[2]+" of both elements: objects that tie on the remaining keys keep their input (listing / map) order, so the winner among them differs between runs and instances")
 		}
 	}
-	c.Floor(11)
+	c.Floor(14)
 }
 
 // rootName: a name for the root of an access path (distinguishes the two comparator operands).
@@ -1858,7 +1859,14 @@ func c17r8(c *Ctx) {
 // after the loop) an incoming value from inside the loop that derives from the iteration's key or element is reported,
 // except commutative accumulation (x = x OP f(elem) for +,|,&,^,* on numbers / bools) and min/max selection
 // (assignment under a comparison of the same variable with the candidate).
+// comparators whose totality C17-R2 checks
+var c17TotalComparators = map[string]bool{
+	"pilot/pkg/model.compareServicesByCreationTime": true,
+	"pkg/config/host.MoreSpecific":                  true, // read: wildcard-ness, then length, then alphabetical - total on distinct names (map keys)
+}
+
 var c17r9Exceptions = map[string]string{
+	"pilot/pkg/model.pickBestVisibleNamespace|first match returned": "the early return for a visible Kubernetes-registry service: the map is keyed by namespace and a Kubernetes service's hostname embeds its namespace (kube.ConvertService, clusterset hosts alike), so at most one entry of the map can be a Kubernetes service - at most one pass can return (findings/findV notes)",
 	"pilot/pkg/model.mostSpecificHostWildcardMatch|matchValue": "selection of the most specific wildcard among the map KEYS with host.MoreSpecific, which is a total order on distinct names (wildcard-ness, length, then alphabetical): the winner does not depend on the visiting order",
 	"(*pilot/pkg/model.PushContext).ServiceForHostname|first match returned": "fallback for a proxy without SidecarScope, documented as undefined in the code; every connected proxy has a SidecarScope before generation (computeProxyState), so generation never takes this branch",
 }
@@ -2050,20 +2058,39 @@ func c17r9(c *Ctx) {
 							}
 							v, _ := stripNot(i.Cond)
 							bo, ok := v.(*ssa.BinOp)
-							if !ok {
-								if call, isCall := v.(*ssa.Call); isCall {
-									for _, a := range call.Call.Args {
-										if a == ssa.Value(phi) {
-											sel = true
-										}
+							// a comparator that R2 verifies to be total (it breaks ties on name and namespace), with the
+							// variable itself as an operand
+							viaTotal := func(x ssa.Value) bool {
+								call, isCall := x.(*ssa.Call)
+								if !isCall {
+									return false
+								}
+								sc := call.Call.StaticCallee()
+								if sc == nil || !c17TotalComparators[stableFnName(sc)] {
+									return false
+								}
+								for _, a := range call.Call.Args {
+									if a == ssa.Value(phi) {
+										return true
 									}
+								}
+								return false
+							}
+							if !ok {
+								if viaTotal(v) {
+									sel = true
 								}
 								continue
 							}
+							if viaTotal(bo.X) || viaTotal(bo.Y) {
+								sel = true
+							}
 							if bo.X == ssa.Value(phi) || bo.Y == ssa.Value(phi) {
-								switch bo.Op {
-								case token.LSS, token.GTR, token.LEQ, token.GEQ:
-									sel = true
+								if bt, isB := phi.Type().Underlying().(*types.Basic); isB && bt.Info()&(types.IsNumeric|types.IsString) != 0 {
+									switch bo.Op {
+									case token.LSS, token.GTR, token.LEQ, token.GEQ:
+										sel = true // scalar min / max: total
+									}
 								}
 							}
 						}
